@@ -232,6 +232,7 @@ def run(M, rec, tier, seed, k, n):
             compiled_conservation(M, rec, rng, 60, mon)
             W.closed_loop(M, rec, rng, 7, 90, on_step=on_step)
             W.inplace_pairs(M, rec, rng, 40, before_case=before)
+            draining_segments_in_the_callers_loop(M, rec, rng, 18, before)
             W.small_valid_steps(M, rec, rng, 2, before_case=before, seed=seed)
         else:
             W.numpy_steps(M, rec, rng, 6000, draws=3, before_case=before)
@@ -239,6 +240,7 @@ def run(M, rec, tier, seed, k, n):
             compiled_conservation(M, rec, rng, 500, mon)
             W.closed_loop(M, rec, rng, 14, 180, on_step=on_step)
             W.inplace_pairs(M, rec, rng, 300, before_case=before)
+            draining_segments_in_the_callers_loop(M, rec, rng, 90, before)
             W.small_valid_steps(M, rec, rng, 3, k, n, before_case=before, seed=seed)
             # every valid 4-node topology (49 551 digraphs) with the reduced role set (253 151 networks)
             W.small_valid_steps(M, rec, rng, 4, k, n, before_case=before, seed=seed + 1, kinds_full=False, only_n=4)
@@ -249,6 +251,62 @@ def run(M, rec, tier, seed, k, n):
     W.complex_step_turn_rates(M, rec, rng, PROP, 30 if tier == "quick" else 300, "conservation")
     if k == 0:
         W.repo_tests(rec, [PROP])
+
+
+def draining_segments_in_the_callers_loop(M, rec, rng, reps, before):
+    """Scripted in every run: short segments (250 m) that drain faster than they fill (T v / L > 1, next to an almost empty
+    upstream segment), stepped by the CALLER'S own per-element loop without any option: the un-clamped next density is negative
+    there and vehicles are conserved all the same (the in-situ monitor decides the balance)."""
+    NE, CE = drive.engines(M)
+    for it in range(reps):
+        N_ = rng.choice((3, 4))
+        desc = {"nodes": ["n0", "n1", "n2"],
+                "links": [{"id": "L0", "name": "L0", "up": "n0", "down": "n1", "N": N_, "lam": 2, "L": 0.25, "rho_max": 180.0, "rho_crit": 33.5, "v_free": 110.0, "a": 1.867,
+                           "beta": 1.0, "vsl": None, "alpha": None},
+                          {"id": "L1", "name": "L1", "up": "n1", "down": "n2", "N": 2, "lam": 2, "L": 0.25, "rho_max": 180.0, "rho_crit": 33.5, "v_free": 110.0, "a": 1.867,
+                           "beta": 1.0, "vsl": None, "alpha": None}],
+                "origins": [{"id": "O0", "name": "O0", "node": "n0", "kind": ("main", "ramp", "ideal")[it % 3], "C": 2000.0 if it % 3 == 1 else None, "eq": "out" if it % 3 == 1 else None}],
+                "dests": [{"id": "D0", "name": "D0", "node": "n2", "kind": "free"}]}
+        pars = {"T": 10 / 3600, "tau": 18 / 3600, "eta": 60.0, "kappa": 40.0, "delta": None, "phi": None}
+        g = G.NetGen(rng)
+        _, vals = g.values(desc, "interior", allow_inf=False)
+        k_ = rng.randrange(1, N_)
+        vals["L0"]["rho"] = [rng.uniform(2.0, 6.0) for _ in range(N_)]
+        vals["L0"]["rho"][k_] = rng.uniform(50.0, 80.0)
+        vals["L0"]["v"] = [rng.uniform(100.0, 110.0) for _ in range(N_)]
+        built = D.build(M, desc)
+        rec.count("caller_driven_steps_with_a_draining_segment")
+        eng = NE()
+        T = pars["T"]
+        kw = {k_: v_ for k_, v_ in pars.items() if v_ is not None}
+        try:
+            ic = drive.np_init(built, vals, "vec1")
+            for el in built.net.elements:      # the caller's own loop: no option is passed anywhere
+                el.init_vars(init_conditions=ic.get(el), engine=eng)
+            for o_ in built.net.origins:
+                o_.step(net=built.net, engine=eng, **kw)
+            for _u, _w, l_ in built.net.links:
+                l_.step(net=built.net, engine=eng, **kw)
+            nxt = drive.read_next(built)
+        except Exception as e:
+            rec.count("caller_driven_steps_with_a_draining_segment_raised")
+            rec.seen("caller_driven_steps_with_a_draining_segment_raised", repr(e)[:120])
+            continue
+        veh = lambda d_: sum(sum(d_[l_["id"]]["rho"]) * l_["lam"] * l_["L"] for l_ in desc["links"])  # noqa: E731
+        q_out = vals["L1"]["rho"][-1] * vals["L1"]["v"][-1] * 2
+        o = desc["origins"][0]
+        if o["kind"] == "ideal":
+            inflow, dq = vals["L0"]["rho"][0] * vals["L0"]["v"][0] * 2, 0.0
+        else:
+            inflow, dq = vals["O0"]["d"], nxt["O0"]["w"] - vals["O0"]["w"]
+        lhs = veh(nxt) - veh(vals) + dq
+        rhs = T * (inflow - q_out)
+        mag = veh(vals) + abs(T * inflow) + abs(T * q_out) + abs(dq)
+        if min(min(nxt[l_["id"]]["rho"]) for l_ in desc["links"]) < 0:
+            rec.count("caller_driven_steps_with_a_negative_next_density")
+        if not O.close(lhs, rhs, mag, rel=1e-9):
+            rec.violation(f"{PROP}:numpy:network-wide vehicle balance broken in the caller's own per-element loop (no option passed; a segment drains below zero)",
+                          {"desc": desc, "vals": vals, "next": nxt, "change_of_vehicles_in_the_network": lhs, "T_times_inflow_minus_outflow": rhs})
 
 
 def finish(M, rec, write=True):
